@@ -169,6 +169,12 @@ def spec_call(engine, st, name, node):
         S = domain_of(engine, engine.deref(st, engine.eval(st, node.args[0])))
         sz = engine.deref(st, engine.eval(st, node.args[1]))
         return V(Int, [engine.prodset(S, sz)])
+    if name == "ifbound":
+        # ifbound('x', default): the local x if it has been assigned on this path, else the default
+        nm = node.args[0].value
+        if nm in st.vars or nm in engine.bound:
+            return engine.eval(st, ast.Name(id=nm, ctx=ast.Load()))
+        return engine.eval(st, node.args[1])
     if name == "count_in":
         # count_in(xs, k, t) = #{p < t : xs[p] == k} for a sequence of scalars
         from . import colsum as CS
@@ -860,6 +866,16 @@ def quantified(engine, st, node, kind):
     return Ty.mk_bool(z3.Exists([q], z3.And(*guard, *conds, body)))
 
 
+def fresh_default_term(srt):
+    if srt == Ty.BoolS:
+        return z3.BoolVal(False)
+    if srt == Ty.RealS:
+        return z3.RealVal(0)
+    if srt == Ty.IntS:
+        return z3.IntVal(0)
+    return z3.K(srt.domain(), fresh_default_term(srt.range()))
+
+
 def comprehension(engine, st, node, kind):
     """Pure map/filter comprehensions become lambda-defined containers."""
     from .loops import describe_iter, PosIter, SetIter, Unroll
@@ -937,6 +953,12 @@ def comprehension(engine, st, node, kind):
                                                                                             *[arr[inv(q)] == c for arr, c in zip(out.c[1:], val.c)])),
                                        patterns=[src_pat] if src_pat is not None else [inv(q)]))
                 return engine.alloc(outer, out)
+            if kind in ("list", "gen") and isinstance(node.elt, ast.Dict) and not node.elt.keys:
+                # [{} for _ in range(n)]: n empty dicts of the element type declared for the target
+                ht = engine.contract.hints.get(getattr(node, "_target_name", None))
+                if isinstance(ht, Ty.List) and isinstance(ht.e, Ty.Map):
+                    empty = [z3.K(Ty.IntS, z3.BoolVal(False))] + [z3.K(Ty.IntS, fresh_default_term(srt)) for srt in ht.e.v.sorts()]
+                    return engine.alloc(outer, V(ht, [it.length] + [z3.K(Ty.IntS, c) for c in empty]))
             if kind in ("list", "gen"):
                 val = engine.unbox_value(st, engine.eval(st, node.elt))
                 arrs = [z3.Lambda([q], c) for c in val.c]
